@@ -754,3 +754,260 @@ pub fn c13(tier: Tier) -> i32 {
     rep.assume("one canonical schedule per scenario; fault-free consensus (no crash) as the property states");
     rep.finish()
 }
+
+// ---------------------------------------------------------------------------------------------
+// C01 (second engine): enumerated Byzantine strategies against three real honest nodes
+// ---------------------------------------------------------------------------------------------
+
+#[derive(Clone, Debug)]
+pub struct ScByz {
+    z: usize,
+    s1: u8,          // honest nodes (bitmask over the 3 honest, in index order) that get the regular proposal
+    s2: u8,          // honest nodes that get the stale, TC-justified proposal
+    stale_genesis: bool,
+    claim_low: bool,
+    vote_all: bool,
+}
+
+fn run_byz(sc: &ScByz) -> (Vec<(String, String)>, Value) {
+    use crate::world::{is_genesis_qc, CONSENSUS_PORT0};
+    use consensus::{Block, QC, TC};
+    use crypto::{PublicKey, Signature};
+    let n = 4;
+    let z = sc.z;
+    let mut sim = Sim::new(&[1, 1, 1, 1], false, DELTA_T, 10_000, DELTA, None);
+    sim.set_byzantine(z);
+    let honest: Vec<usize> = (0..n).filter(|i| *i != z).collect();
+    let w = crate::world::World::new(&[1, 1, 1, 1]);
+    let q = w.ref_quorum();
+    let mut blocks: HashMap<Digest, Block> = HashMap::new();
+    let mut votes: HashMap<(u64, Digest), BTreeMap<PublicKey, Signature>> = HashMap::new();
+    let mut timeouts: HashMap<u64, BTreeMap<PublicKey, (Signature, u64)>> = HashMap::new();
+    let mut qcs: BTreeMap<u64, QC> = BTreeMap::new();
+    let mut sent_timeout: HashSet<u64> = HashSet::new();
+    let mut did_a: HashSet<u64> = HashSet::new();
+    let mut did_b: HashSet<u64> = HashSet::new();
+    let mut created = 0u64;
+    let horizon = 14_000u64;
+    let subset = |mask: u8| -> Vec<usize> { honest.iter().enumerate().filter(|(k, _)| mask & (1 << k) != 0).map(|(_, h)| *h).collect() };
+    let mut policy = |_f: &FrameInfo| -> Verdict { Verdict::Deliver(DELTA) };
+    while sim.now < horizon {
+        let mut step = G;
+        if let Some(d) = sim.next_due() {
+            step = step.min(d.saturating_sub(sim.now).max(1));
+        }
+        sim.tick(step, &mut policy);
+        let inbox = std::mem::take(&mut sim.byz_inbox);
+        let mut out: Vec<(usize, ConsensusMessage)> = Vec::new();
+        for (_, src, kind, bytes) in inbox {
+            if kind != Kind::Consensus {
+                continue;
+            }
+            match decode_consensus(&bytes) {
+                Some(ConsensusMessage::Propose(b)) => {
+                    if !is_genesis_qc(&b.qc) {
+                        qcs.entry(b.qc.round).or_insert_with(|| b.qc.clone());
+                    }
+                    if sc.vote_all && blocks.insert(b.digest(), b.clone()).is_none() {
+                        let next = w.ref_leader(b.round + 1);
+                        let v = w.vote(z, &b);
+                        if next == z {
+                            votes.entry((b.round, b.digest())).or_default().insert(w.name(z), v.signature);
+                        } else {
+                            out.push((next, ConsensusMessage::Vote(v)));
+                        }
+                    } else {
+                        blocks.insert(b.digest(), b.clone());
+                    }
+                }
+                Some(ConsensusMessage::Vote(v)) => {
+                    if w.ref_valid_vote(&v) {
+                        votes.entry((v.round, v.hash.clone())).or_default().insert(v.author, v.signature.clone());
+                    }
+                }
+                Some(ConsensusMessage::Timeout(t)) => {
+                    if !is_genesis_qc(&t.high_qc) {
+                        qcs.entry(t.high_qc.round).or_insert_with(|| t.high_qc.clone());
+                    }
+                    timeouts.entry(t.round).or_default().insert(t.author, (t.signature.clone(), t.high_qc.round));
+                    if sent_timeout.insert(t.round) {
+                        let hq = if sc.claim_low { QC::genesis() } else { qcs.range(..t.round).next_back().map(|x| x.1.clone()).unwrap_or_else(QC::genesis) };
+                        let mine = w.timeout(z, t.round, hq);
+                        timeouts.entry(t.round).or_default().insert(w.name(z), (mine.signature.clone(), mine.high_qc.round));
+                        for h in &honest {
+                            out.push((*h, ConsensusMessage::Timeout(mine.clone())));
+                        }
+                        created += 1;
+                    }
+                }
+                Some(ConsensusMessage::SyncRequest(d, origin)) => {
+                    if let (Some(b), Some(o)) = (blocks.get(&d), w.index_of(&origin)) {
+                        out.push((o, ConsensusMessage::Propose(b.clone())));
+                    }
+                }
+                _ => {}
+            }
+            let _ = src;
+        }
+        // leader actions
+        let rounds_led: Vec<u64> = (1..40u64).filter(|r| w.ref_leader(*r) == z).collect();
+        for r in rounds_led {
+            if !did_a.contains(&r) {
+                // regular proposal: a QC for some block of round r-1 formable from the votes received
+                let mut found: Option<QC> = None;
+                if r == 1 {
+                    found = Some(QC::genesis());
+                }
+                for ((vr, h), vs) in &votes {
+                    if *vr + 1 == r {
+                        let mut vs = vs.clone();
+                        if !vs.contains_key(&w.name(z)) {
+                            vs.insert(w.name(z), w.vote_for(z, h.clone(), *vr).signature);
+                        }
+                        if vs.len() as u64 >= q {
+                            found = Some(QC { hash: h.clone(), round: *vr, votes: vs.into_iter().collect() });
+                        }
+                    }
+                }
+                if let Some(qc) = found {
+                    did_a.insert(r);
+                    if !is_genesis_qc(&qc) {
+                        qcs.entry(qc.round).or_insert_with(|| qc.clone());
+                    }
+                    let b = w.block(z, r, qc, None, vec![]);
+                    blocks.insert(b.digest(), b.clone());
+                    created += 1;
+                    for h in subset(sc.s1) {
+                        out.push((h, ConsensusMessage::Propose(b.clone())));
+                    }
+                    if sc.vote_all && w.ref_leader(r + 1) != z {
+                        out.push((w.ref_leader(r + 1), ConsensusMessage::Vote(w.vote(z, &b))));
+                    }
+                }
+            }
+            if !did_b.contains(&r) && r > 1 {
+                // stale proposal justified by a TC of round r-1 assembled from the honest timeouts + its own
+                if let Some(ts) = timeouts.get(&(r - 1)) {
+                    if ts.len() as u64 >= q {
+                        did_b.insert(r);
+                        let tc = TC { round: r - 1, votes: ts.iter().map(|(k, (s, h))| (*k, s.clone(), *h)).collect() };
+                        let stale = if sc.stale_genesis {
+                            QC::genesis()
+                        } else {
+                            // the second-highest QC known below r (or genesis)
+                            let mut it = qcs.range(..r).rev();
+                            it.next();
+                            it.next().map(|x| x.1.clone()).unwrap_or_else(QC::genesis)
+                        };
+                        let b = w.block(z, r, stale, Some(tc), vec![]);
+                        blocks.insert(b.digest(), b.clone());
+                        created += 1;
+                        for h in subset(sc.s2) {
+                            out.push((h, ConsensusMessage::Propose(b.clone())));
+                        }
+                        if sc.vote_all && w.ref_leader(r + 1) != z {
+                            out.push((w.ref_leader(r + 1), ConsensusMessage::Vote(w.vote(z, &b))));
+                        }
+                    }
+                }
+            }
+        }
+        for (dst, m) in out {
+            sim.inject(dst, CONSENSUS_PORT0 + dst as u16, bincode::serialize(&m).unwrap(), DELTA);
+        }
+    }
+    let mut bad = Vec::new();
+    // agreement: every two blocks delivered by honest nodes lie on one chain
+    let mut all: HashMap<Digest, Block> = blocks.clone();
+    for h in &honest {
+        for (_, b) in &sim.commits[*h] {
+            all.insert(b.digest(), b.clone());
+        }
+    }
+    let ancestor = |a: &Digest, b: &Digest| -> bool {
+        let mut cur = b.clone();
+        for _ in 0..1000 {
+            if cur == *a {
+                return true;
+            }
+            match all.get(&cur) {
+                Some(x) if !is_genesis_qc(&x.qc) => cur = x.qc.hash.clone(),
+                _ => return false,
+            }
+        }
+        false
+    };
+    'outer: for a in &honest {
+        for b in &honest {
+            if a < b {
+                for (_, x) in &sim.commits[*a] {
+                    for (_, y) in &sim.commits[*b] {
+                        let (dx, dy) = (x.digest(), y.digest());
+                        if !(ancestor(&dx, &dy) || ancestor(&dy, &dx)) {
+                            bad.push(("agreement:conflicting-commits".to_string(), format!("honest nodes n{} and n{} committed blocks of rounds {} and {} that are not on one chain", a, b, x.round, y.round)));
+                            break 'outer;
+                        }
+                    }
+                }
+            }
+        }
+    }
+    for (i, p) in &sim.panics {
+        bad.push(("panic".into(), format!("node n{} panicked: {}", i, p)));
+    }
+    let info = json!({"committed_rounds": honest.iter().map(|h| sim.committed_round(*h)).collect::<Vec<_>>(), "byzantine_messages": created, "stale_proposals": did_b.len(), "regular_proposals": did_a.len()});
+    (bad, info)
+}
+
+pub fn c01_strategies(rep: &mut Report, tier: Tier) {
+    let mut grid: Vec<ScByz> = Vec::new();
+    let zs: Vec<usize> = tier.pick(vec![3, 1], vec![0, 1, 2, 3]);
+    for &z in &zs {
+        for s1 in 0..8u8 {
+            for s2 in 0..8u8 {
+                for stale_genesis in [true, false] {
+                    for claim_low in [true, false] {
+                        for vote_all in [true, false] {
+                            if tier == Tier::Quick && !vote_all && !claim_low {
+                                continue;
+                            }
+                            grid.push(ScByz { z, s1, s2, stale_genesis, claim_low, vote_all });
+                        }
+                    }
+                }
+            }
+        }
+    }
+    let results = par_map(grid.len(), ncpu(), |i| run_byz(&grid[i]));
+    let mut outcomes: BTreeSet<String> = BTreeSet::new();
+    let mut with_stale = 0u64;
+    let mut reported = false;
+    for (i, (bad, info)) in results.iter().enumerate() {
+        outcomes.insert(info.to_string());
+        if info["stale_proposals"].as_u64().unwrap_or(0) > 0 {
+            with_stale += 1;
+        }
+        for (sig, what) in bad {
+            if !reported || sig != "agreement:conflicting-commits" {
+                rep.violation(sig.clone(), format!("[byzantine strategy {:?}] {}", grid[i], what), json!({"engine":"sim","check":"c01-strategies","scenario":format!("{:?}", grid[i])}));
+            }
+            if sig == "agreement:conflicting-commits" {
+                reported = true;
+            }
+        }
+    }
+    println!("  sim/byzantine strategies: scenarios={} distinct outcomes={} scenarios in which a stale TC-justified proposal was sent={}", grid.len(), outcomes.len(), with_stale);
+    rep.set("byzantine_strategy_scenarios", json!(grid.len()));
+    rep.set("byzantine_strategy_distinct_outcomes", json!(outcomes.len()));
+    rep.set("byzantine_strategy_scenarios_with_stale_proposal", json!(with_stale));
+    rep.set("byzantine_strategy_grid", json!("Byzantine member position x subset of honest nodes that receive its regular proposal (QC formed from the votes it received + its own) x subset that receive a second, stale proposal for the same round (on the genesis QC or the second-highest known QC, justified by a TC it assembles from the honest timeouts plus its own timeout claiming the lowest or highest QC) x votes for everything | never votes; the strategy is applied in every round the member leads; it answers sync requests; three real honest nodes, natural timers (1000 ms), 14 virtual seconds, one deterministic schedule per grid point; oracle: all blocks committed by honest nodes pairwise on one chain"));
+    rep.sample(json!({"byzantine_strategy": format!("{:?}", grid[grid.len() / 3]), "outcome": results[grid.len() / 3].1}));
+}
+
+pub fn debug_byz() {
+    for (s1, s2) in [(1u8, 6u8), (2, 5), (4, 3), (1, 7)] {
+        let sc = ScByz { z: 3, s1, s2, stale_genesis: true, claim_low: true, vote_all: true };
+        let (bad, info) = run_byz(&sc);
+        println!("{:?} -> {} {:?}", sc, info, bad);
+    }
+}
